@@ -222,6 +222,15 @@ func runC07(c *Ctx) {
 				}
 				k, isC := constInt(st.Val)
 				if !isC {
+					// cmp.Or(configured, K): the zero value is replaced by construction
+					if kk, isOr := defaultOfOr(w, st.Val); isOr {
+						found = true
+						if kk == d.want {
+							c.OK("C07.4", fname(ns), "default "+d.field, w.instrPos(in), fmt.Sprintf("cmp.Or(configured, %d ns): a zero %s becomes the constant", kk, d.field))
+						} else {
+							c.Bad("C07.4", fname(ns), "default "+d.field, w.instrPos(in), fmt.Sprintf("default for %s is %d ns, expected %d ns", d.field, kk, d.want))
+						}
+					}
 					return // the copy from the configuration
 				}
 				found = true
